@@ -24,13 +24,61 @@ def setup(env):
         f.write(b"")
     sh = Shim({"/sys": root + "/sys"})
     sh.install()
-    _st.update(root=root, shim=sh, sysfs=True, err=set())
+    _st.update(root=root, shim=sh, sysfs=True, err=set(), readerr={})
+    install_read_errors()
 
     def fault(kind, path, idx):
         if kind == "open" and path in _st["err"]:
             return PermissionError(13, "Permission denied", path)
         return None
     sh.fault = fault
+
+
+# ------------------------------------------------------------------ files that open but cannot be read
+class ReadErrFile:
+    """what open() returns for a sysfs attribute whose driver answers read(2) with an error"""
+
+    def __init__(self, real, err):
+        self._real = real
+        self._err = err
+
+    def _fail(self, *a, **kw):
+        raise OSError(self._err, os.strerror(self._err))
+
+    read = readline = readlines = read1 = readinto = __next__ = _fail
+
+    def __iter__(self):
+        return self
+
+    def __enter__(self):
+        return self
+
+    def __exit__(self, *a):
+        self._real.close()
+        return False
+
+    def close(self):
+        self._real.close()
+
+    def fileno(self):
+        return self._real.fileno()
+
+
+def install_read_errors():
+    import builtins
+    import errno
+    import io
+    inner = builtins.open          # the shim's path-rewriting open
+
+    def open_(path, *a, **kw):
+        f = inner(path, *a, **kw)
+        p = os.fsdecode(path) if isinstance(path, (bytes, os.PathLike)) else path
+        e = _st["readerr"].get(p) if isinstance(p, str) else None
+        if e is not None:
+            return ReadErrFile(f, getattr(errno, e))
+        return f
+    builtins.open = open_
+    io.open = open_
 
 
 # ------------------------------------------------------------------ tree
@@ -42,7 +90,9 @@ def _state(x):
         return None if x["t"] == "Absent" else "ERR"
     if x[0] == "C":
         return x[1].encode("utf-8", "surrogateescape")
-    return None if x[0] == "A" else "ERR"
+    if x[0] == "A":
+        return None
+    return ("RERR", x[1]) if len(x) > 1 else "ERR"
 
 
 class Tree:
@@ -50,8 +100,11 @@ class Tree:
         self.files = {}
         self.dirs = set()
 
-    def put(self, path, x):
+    def put(self, path, x, orig=None):
+        """x: printed or raw state; orig: the case's own value for this file (tells HOW an unreadable file fails)"""
         s = _state(x)
+        if s == "ERR" and isinstance(orig, list) and len(orig) > 1 and orig[0] in ("U", "E"):
+            s = ("RERR", orig[1])
         if s is not None:
             self.files[path] = s
 
@@ -60,15 +113,19 @@ class Tree:
         shutil.rmtree(root + "/sys", ignore_errors=True)
         os.makedirs(root + "/sys")
         err = set()
+        rerr = {}
         for d in self.dirs:
             os.makedirs(root + d, exist_ok=True)
         for p, s in self.files.items():
             os.makedirs(os.path.dirname(root + p), exist_ok=True)
             with open(root + p, "wb") as f:
-                f.write(b"" if s == "ERR" else s)
+                f.write(s if isinstance(s, bytes) else b"")
             if s == "ERR":
                 err.add(p)
+            elif isinstance(s, tuple):
+                rerr[p] = s[1]
         _st["err"] = err
+        _st["readerr"] = rerr
         _st["shim"].log = []
 
 
@@ -195,13 +252,13 @@ def put_temp_chips(t, chips, pe, prefix):
             base = pre + "temp%d" % s["n"]
             if s["other"]:
                 t.put(base + "_min", ["C", "0\n"])
-            t.put(base + "_input", inp)
-            t.put(base + "_max", mx)
-            t.put(base + "_crit", cr)
-            t.put(base + "_label", lab)
-            t.put(pre + "name", name)
+            t.put(base + "_input", inp, s["input"])
+            t.put(base + "_max", mx, s["max"])
+            t.put(base + "_crit", cr, s["crit"])
+            t.put(base + "_label", lab, s["label"])
+            t.put(pre + "name", name, c["name"])
         if c["name"][0] != "A" and pre + "name" not in t.files:
-            t.put(pre + "name", ["C", c["name"][1] + "\n"] if c["name"][0] == "P" else ["E"])
+            t.put(pre + "name", ["C", c["name"][1] + "\n"] if c["name"][0] == "P" else ["E"] + c["name"][1:])
     assert i == len(pe), (i, len(pe))
 
 
@@ -243,11 +300,11 @@ def run_temps(psutil, case, coq, raw):
         for z, p in zip(sorted_zones(case["zones"]), pz):
             zp = "%s/thermal_zone%d" % (TZ, z["idx"])
             t.dirs.add(zp)
-            t.put(zp + "/temp", p[0])
-            t.put(zp + "/type", p[1])
+            t.put(zp + "/temp", p[0], z["temp"])
+            t.put(zp + "/type", p[1], z["type"])
             for tr, pt in zip(z["trips"], p[2]):
-                t.put("%s/trip_point_%d_type" % (zp, tr["idx"]), pt[0])
-                t.put("%s/trip_point_%d_temp" % (zp, tr["idx"]), pt[1])
+                t.put("%s/trip_point_%d_type" % (zp, tr["idx"]), pt[0], tr["type"])
+                t.put("%s/trip_point_%d_temp" % (zp, tr["idx"]), pt[1], tr["temp"])
     t.write()
     r = outcome(lambda: psutil.sensors_temperatures(fahrenheit=case["fahr"]), conv_temps)
     return snap_best(r, coq["model"], coq.get("spec"))
@@ -276,9 +333,9 @@ def run_fans(psutil, case, coq, raw):
                     t.put(base + "_min", ["C", "0\n"])
                 inp, name, lab = pe[i]
                 i += 1
-                t.put(base + "_input", inp)
-                t.put(base + "_label", lab)
-                t.put(pre + "name", name)
+                t.put(base + "_input", inp, f["input"])
+                t.put(base + "_label", lab, f["label"])
+                t.put(pre + "name", name, c["name"])
         assert i == len(pe), (i, len(pe))
     t.write()
     return outcome(psutil.sensors_fans, conv_fans)
@@ -303,10 +360,13 @@ def run_battery(psutil, case, coq, raw):
                 d = PS + "/" + os.fsdecode(unB(name))
                 t.dirs.add(d)
                 if e["bat"] is not None:
-                    for f, x in zip(battery_files, files):
-                        t.put(d + "/" + f, x)
-            t.put(PS + "/AC0/online", ac0)
-            t.put(PS + "/AC/online", ac)
+                    b = e["bat"]
+                    origs = [b["now"][0], b["now"][1], b["power"][0], b["power"][1], b["full"][0], b["full"][1],
+                             b["tte"], b["capacity"], b["status"]]
+                    for f, x, o in zip(battery_files, files, origs):
+                        t.put(d + "/" + f, x, o)
+            t.put(PS + "/AC0/online", ac0, case["ac0"])
+            t.put(PS + "/AC/online", ac, case["ac"])
     t.write()
     r = outcome(psutil.sensors_battery, conv_battery)
     r = snap_best(r, coq["model"], coq.get("spec"))
@@ -344,8 +404,9 @@ def run_cpufreq(psutil, case, coq, raw):
     for pos, (c, p) in enumerate(zip(cpus, pols)):
         d = "%s/cpufreq/policy%d" % (CPU, c["idx"]) if case["nest"] == "policy" else "%s/cpu%d/cpufreq" % (CPU, c["idx"])
         t.dirs.add(d)
-        for f, x in zip(("scaling_cur_freq", "cpuinfo_cur_freq", "scaling_min_freq", "scaling_max_freq"), p):
-            t.put(d + "/" + f, x)
+        origs = (c["cur"] + [None, None]) if (not raw and c.get("kind") == "on") else [None] * 4
+        for f, x, o in zip(("scaling_cur_freq", "cpuinfo_cur_freq", "scaling_min_freq", "scaling_max_freq"), p, origs):
+            t.put(d + "/" + f, x, o)
         t.put("%s/cpu%d/online" % (CPU, pos), p[4])
     t.write()
     assert ensure_variant(psutil) == cpufreq_sysfs(case)
